@@ -706,6 +706,11 @@ void File::uncompressedFile2ReadWriteQueue() {
         /* This is a normal eof. No objects ended abruptly. */
         return;
     }
+
+    /* an object cannot be smaller than its own base header: with a declared size of e.g. 0 the
+     * reader would otherwise never advance and deliver (or skip) the same bytes forever */
+    if (ohb.objectSize < ohb.calculateHeaderSize())
+        throw Exception("File::uncompressedFile2ReadWriteQueue(): Object size smaller than object header.");
     m_uncompressedFile.seekg(-ohb.calculateHeaderSize(), std::ios_base::cur);
 
     /* create object */
